@@ -300,6 +300,27 @@ theorem c09_resume_complete_full_fails :
   rw [h1] at this
   cases this
 
+/-- why no loader (and no executor) can repair this on the present file format: the number of
+data points of an invocation is whatever the harness prints, and the file has no end-of-invocation
+record.  History A: invocation 1 printed ONE data point and the session ended normally.  History B:
+invocation 1 printed TWO data points and the session was killed after the first flush.  Both leave
+exactly the same records, so every function of the file gives both the same plan — but A needs
+"continue with invocation 2" and B needs "invocation 1 again". -/
+theorem c09_complete_and_torn_indistinguishable :
+    let a : List WDP := [⟨0, 0, 1, 1, [], "2".toList⟩]
+    let b : List WDP := [⟨0, 0, 1, 1, [], "2".toList⟩, ⟨0, 0, 1, 2, [], "3".toList⟩]
+    sessionRecs false true LState.init.tables a = (sessionRecs false true LState.init.tables b).take 8
+    ∧ ∀ plan : List Rec → List Nat,
+        ¬ (plan (sessionRecs false true LState.init.tables a) = [2]
+           ∧ plan ((sessionRecs false true LState.init.tables b).take 8) = [1, 2]) := by
+  refine ⟨by decide, fun plan h => ?_⟩
+  have e : sessionRecs false true LState.init.tables [⟨0, 0, 1, 1, [], "2".toList⟩]
+      = (sessionRecs false true LState.init.tables
+          [⟨0, 0, 1, 1, [], "2".toList⟩, ⟨0, 0, 1, 2, [], "3".toList⟩]).take 8 := by decide
+  rw [e] at h
+  have := h.1.symm.trans h.2
+  cases this
+
 /-- `resume_complete`, proved part: if every invocation counted so far is complete (for every run of
 the session, each invocation up to `completed_invocations` has all its data points — which excludes
 exactly the state left by a kill between two flushes of one invocation), then after the resumed
